@@ -17,14 +17,14 @@ Inductive obs :=
   | OBus (o : occ)                                              (* the driver handed o to pyscript *)
   | ORunning (T : nat) (f : N) (kw : kwargs) (c : ctxv)         (* `pyscript_running` for function f; T = attribution hint *)
   | OBegin (rid : Z) (f : N) (kw : kwargs) (c : ctxv)           (* the function body reports its kwargs (pv_run) *)
-  | OFire (rid : Z) (ai : nat) (key : N) (data : kwargs) (c : ctxv)
+  | OFire (rid : Z) (ai : nat) (key : N) (data : kwargs) (c : ctxv) (ep : N)
   | OSet (rid : Z) (ai : nat) (c : ctxv)
   | OCall (rid : Z) (ai : nat) (c : ctxv).
 
 Record ecase := {
   ec_legacy : bool;
   ec_trigs : list trigger;
-  ec_order : list nat;                     (* order of webhook registration attempts (decorator indices) *)
+  ec_order : list (bool * nat);            (* webhook (un)registrations in the order they happened, see reg_sim *)
   ec_scripts : list (N * list sact);       (* per function: what its body does *)
   ec_obs : list obs
 }.
@@ -115,7 +115,7 @@ Definition replay_obs (c : ecase) (Sy : sys) (rs : rstate) (ob : obs) : option r
           end
       | None => None
       end
-  | OFire rid ai key data cx =>
+  | OFire rid ai key data cx ep =>
       match rid_run rs rid with
       | Some r =>
         match nth_error (st_runs (rs_st rs)) r with
@@ -124,7 +124,7 @@ Definition replay_obs (c : ecase) (Sy : sys) (rs : rstate) (ob : obs) : option r
           match nth_error script ai with
           | Some (SFire key' kw ca) =>
               if N.eqb key key' && pc_ok script (pc_of rs r) ai
-              then match do_step Sy rs (LRun r (AFire key (given_of rid ai kw ca (r_kwargs rn)) data cx)) with
+              then match do_step Sy rs (LRun r (AFire key (given_of rid ai kw ca (r_kwargs rn)) data cx ep)) with
                    | Some rs' => Some (set_pc rs' r (S ai))
                    | None => None
                    end
@@ -208,8 +208,8 @@ Definition ecase_path (cfg : deviations) (c : ecase) : list label :=
 Definition obs_occs (c : ecase) : list occ :=
   flat_map (fun ob => match ob with
                       | OBus o => [o]
-                      | OFire _ _ key data cx =>
-                          [ {| o_kind := KEvent; o_key := key; o_ctx := Some (c_id cx); o_attrs := []; o_data := data; o_opt := None |} ]
+                      | OFire _ _ key data cx ep =>
+                          [ {| o_kind := KEvent; o_key := key; o_epoch := ep; o_ctx := Some (c_id cx); o_attrs := []; o_data := data; o_opt := None |} ]
                       | _ => []
                       end) (ec_obs c).
 
@@ -258,7 +258,7 @@ Definition begin_of (c : ecase) (rid : Z) : option (N * kwargs * ctxv) :=
 Definition actions_ok (c : ecase) : bool :=
   forallb (fun ob =>
     match ob with
-    | OFire rid ai key data cx =>
+    | OFire rid ai key data cx _ =>
         match begin_of c rid with
         | Some (f, rkw, c0) =>
             match nth_error (script_of c f) ai with
